@@ -26,7 +26,11 @@ def run_child(cfg: dict, hashseed: int, timeout: int = 420, extra_env: Optional[
     lines = [ln for ln in r.stdout.splitlines() if ln.startswith("{")]
     if r.returncode != 0 or not lines:
         raise MachineryError(f"child failed (rc={r.returncode}): {r.stderr[-1500:]}\nconfig: {json.dumps(cfg)[:300]}")
-    return json.loads(lines[-1])
+    res = json.loads(lines[-1])
+    if res.get("info", {}).get("step_timeouts"):
+        raise MachineryError(f"a step of a child ran into its time limit: {res['info']['step_timeouts']} in "
+                             f"{json.dumps(cfg)[:300]}")
+    return res
 
 
 def run_many(jobs: list[tuple[dict, int]], timeout: int = 420, extra_envs: Optional[list] = None) -> list[dict]:
